@@ -79,6 +79,7 @@ def run(ck, fb):
     r16d(ck, fb)
     r16f(ck, fb, rows)
     r16g(ck, fb)
+    r16h(ck, fb)
     r16e(ck, fb)
 
 
@@ -706,3 +707,30 @@ def r16e(ck, fb):
             if f == 'token_session':
                 ts.append((b, bb, st))
     ck.require(len(ts) >= 1, 'R16e', 'RequestMeta:built', '-', 'no construction of RequestMeta found in grpc::')
+
+
+def r16h(ck, fb):
+    ck.rule('R16h', 'an expired token stays expired after a restart: API tokens are cache entries written through the Raft log (CacheSetParam carries '
+                    'ttl and the login time `now`); DirectCacheManager::{set,get_set} compute the expiry handed to the store from those two fields '
+                    'and never from the local clock at apply time - replay of the login entry (restart, lagging follower) would otherwise give an '
+                    'expired token a fresh ttl')
+    DC = 'rnacos::cache::core::DirectCacheManager::'
+    n = 0
+    for fn in ('set', 'get_set'):
+        b = ck.body(DC + fn, 'R16h')
+        if not b:
+            continue
+        sinks = b.calls(re.escape(DC) + r'(do_set|set_nx|set_xx|set_value)$')
+        ck.floor('R16h', 'store calls in ' + fn, len(sinks), 1)
+        good = Taint(b, place_src=field_place_src('now'))
+        clock = Taint(b, call_src=lambda t: bool(re.search(r'now_second|now_millis|SystemTime::now|Local::now', (t.get('f') or {}).get('d', ''))))
+        region_clock = [x for x in util.region(fb, b) if x is not b and x.calls(r'now_second|now_millis|SystemTime::now|Local::now')]
+        for s0 in sinks:
+            n += 1
+            exp = s0.args[-1]
+            via_helper = any(cfg.fmt_desc(cfg.describe_operand(b, exp)).find(x.name.split('::')[-1]) >= 0 for x in region_clock)
+            ok = good.op_tainted(exp) and not clock.op_tainted(exp) and not via_helper
+            ck.require(ok, 'R16h', '%s:expiry-from-command' % fn, s0.where(),
+                       'the expiry stored for a cache entry is not ttl + the time stamp carried by the command (%s): it depends on when the entry is '
+                       'applied, so replaying the log revives tokens that had expired' % cfg.fmt_desc(cfg.describe_operand(b, exp))[:60])
+    ck.floor('R16h', 'expiry computations checked', n, 2)
